@@ -8,6 +8,7 @@ import (
 	"os"
 	"os/exec"
 	"path/filepath"
+	"regexp"
 	"runtime"
 	"sort"
 	"strings"
@@ -83,6 +84,12 @@ func runNative(repoDir, verDir, pkg string, cases []nativeCase) ([]nativeResult,
 			return nil, fmt.Errorf("building goit: %v\n%s", err, out)
 		}
 		env = append(env, "VP_GOIT="+goit)
+		// instrumented binary for crash / fault replays: package os replaced by the counting shim zzos (scratch copies only)
+		if instr, err := buildInstrumented(repoDir, verDir, tmp); err == nil {
+			env = append(env, "VP_GOIT_INSTR="+instr)
+		} else {
+			fmt.Println("note: instrumented goit could not be built (crash/fault replays unavailable):", err)
+		}
 	}
 	c := exec.Command("go", "test", "-vet=off", "-count=1", "-timeout", "20m", "-overlay", ovPath, "-run", "^TestVPReplay$", "./"+pkg)
 	c.Dir = repoDir
@@ -291,6 +298,16 @@ func cmdCheck(args []string) int {
 			}
 			for i, nr := range nres {
 				pm := expect[pkg][i]
+				// assertions marked [model-only] have no native counterpart (e.g. the instant of a controlled clock)
+				var ea []string
+				var er []bool
+				for j, m := range pm.Asserts {
+					if !strings.HasSuffix(m, "[model-only]") {
+						ea = append(ea, m)
+						er = append(er, pm.Results[j])
+					}
+				}
+				pm.Asserts, pm.Results = ea, er
 				okc := nr.Outcome == "ok" && len(nr.Asserts) == len(pm.Asserts)
 				if okc {
 					for j := range pm.Asserts {
@@ -396,4 +413,105 @@ func isFlagSet(fs *flag.FlagSet, name string) bool {
 		}
 	})
 	return set
+}
+
+// cmdReplay re-runs a recorded counterexample against the real build (go test -overlay / real goit binary).
+func cmdReplay(args []string) int {
+	if len(args) < 1 {
+		fmt.Println("usage: goitsym replay <file>")
+		return 2
+	}
+	b, err := os.ReadFile(args[0])
+	if err != nil {
+		fmt.Println(err)
+		return 2
+	}
+	var rec struct {
+		Property string                 `json:"property"`
+		Harness  string                 `json:"harness"`
+		Assert   string                 `json:"assert"`
+		Inputs   map[string]interface{} `json:"inputs"`
+		Params   map[string]int         `json:"params"`
+		Known    map[string]bool        `json:"known"`
+	}
+	if err := json.Unmarshal(b, &rec); err != nil {
+		fmt.Println(err)
+		return 2
+	}
+	parts := strings.SplitN(rec.Harness, ":", 2)
+	res, err := runNative("/repo", "/verif", parts[0], []nativeCase{{Harness: parts[1], Inputs: rec.Inputs, Params: rec.Params, Known: rec.Known}})
+	if err != nil || len(res) != 1 {
+		fmt.Println("replay could not run:", err)
+		return 2
+	}
+	out, _ := json.MarshalIndent(res[0], "", " ")
+	fmt.Println(string(out))
+	failed := strings.HasPrefix(rec.Assert, "panic:") && res[0].Outcome == "panic"
+	for _, a := range res[0].Asserts {
+		if !a.OK && a.Msg == rec.Assert {
+			failed = true
+		}
+	}
+	if failed {
+		fmt.Printf("VIOLATION property=%s replay=%s\n", rec.Property, args[0])
+		return 1
+	}
+	fmt.Println("the recorded counterexample does not fail on the current tree")
+	return 0
+}
+
+var osImportRe = regexp.MustCompile(`(?m)^(\s*)(import\s+)?"os"\s*$`)
+
+// buildInstrumented builds goit with every `import "os"` of module files redirected to internal/zzos, through an overlay.
+func buildInstrumented(repoDir, verDir, tmp string) (string, error) {
+	repl := map[string]string{}
+	shim, err := os.ReadFile(filepath.Join(verDir, "harness", "zzos_native", "zzos.go"))
+	if err != nil {
+		return "", err
+	}
+	shimPath := filepath.Join(tmp, "zzos.go")
+	os.WriteFile(shimPath, shim, 0o644)
+	repl[filepath.Join(repoDir, "internal", "zzos", "zzos.go")] = shimPath
+	n := 0
+	err = filepath.Walk(repoDir, func(p string, info os.FileInfo, err error) error {
+		if err != nil {
+			return err
+		}
+		if info.IsDir() {
+			if info.Name() == ".git" || info.Name() == "testdata" {
+				return filepath.SkipDir
+			}
+			return nil
+		}
+		if !strings.HasSuffix(p, ".go") || strings.HasSuffix(p, "_test.go") {
+			return nil
+		}
+		b, err := os.ReadFile(p)
+		if err != nil {
+			return err
+		}
+		if !osImportRe.Match(b) {
+			return nil
+		}
+		nb := osImportRe.ReplaceAll(b, []byte(`${1}${2}os "`+repoMod+`/internal/zzos"`))
+		real := filepath.Join(tmp, fmt.Sprintf("instr%d_%s", n, filepath.Base(p)))
+		n++
+		os.WriteFile(real, nb, 0o644)
+		repl[p] = real
+		return nil
+	})
+	if err != nil {
+		return "", err
+	}
+	ovJSON, _ := json.Marshal(map[string]interface{}{"Replace": repl})
+	ovPath := filepath.Join(tmp, "instr_overlay.json")
+	os.WriteFile(ovPath, ovJSON, 0o644)
+	out := filepath.Join(tmp, "goit_instr")
+	c := exec.Command("go", "build", "-overlay", ovPath, "-o", out, ".")
+	c.Dir = repoDir
+	c.Env = goEnv()
+	if b, err := c.CombinedOutput(); err != nil {
+		return "", fmt.Errorf("%v: %s", err, b)
+	}
+	return out, nil
 }
